@@ -47,6 +47,8 @@ def timed_post(ao, kind, e, period, times, deferred, form):
     if form == 2:
         return f(e, period, times=times, deferred=deferred)
     if form == 3 and times == 0:
+        if isinstance(deferred, bool) and deferred:
+            return f(e, period, None, deferred) if period % 2 else f(e, period=period, times=None, deferred=deferred)   # the documented default passed on explicitly (None: for ever)
         return f(e, period=period, deferred=deferred)              # times left out: for ever
     if form == 4 and deferred:
         return f(e, period, times)                                   # deferred left out: the default (True)
@@ -191,6 +193,7 @@ class GenChart:
         after: optional callable (chart, i, kind, e, status) run after it has decided (after chart.trans(...))."""
         fns = {}
         ch = self
+        name_prefix = getattr(self, "name_prefix", None) or name_prefix      # a state's name is only a name (braces, %, blanks ...)
         left = set()          # states whose handler has run its exit clause and not been entered since (see super_none_after_exit)
         via_callback = bool(getattr(self, "parent_via_callback", False)) and bool(getattr(self, "_host_has_parent_callback", False))
 
@@ -496,14 +499,16 @@ def run_real(chart, ops, host="plain", spied=False, builder=None):
             tp = state_id(hsm.temp.fun, inv)
             rec = {"state_name": getattr(hsm, "state_name", None),
                    "state_fn": state_id(getattr(hsm, "state_fn", None), inv), "current_state": None}
-            if host == "queued" and spied:
+            # (current_state() asks the current state function for its name: only a decorated one knows the question)
+            if host == "queued" and spied and (not isinstance(spied, (list, set, tuple)) or st in spied):
                 n_before = len(log)
                 rec["current_state"] = hsm.current_state()
                 del log[n_before:]
             if hasattr(chart, "none_log"):
                 rec["none_answers"] = list(chart.none_log)
             names.append(rec)
-            vis = [(i, k) for i, k in log]
+            # (on a chart with mixed decoration the instrumentation's own question - REFLECTION - reaches the undecorated handlers too)
+            vis = [(i, k) for i, k in log if not (isinstance(spied, (list, set, tuple)) and k == "rf")]
             head = "ok" if res is None else "ok res=%d" % res
             out.append("%s state=%d temp=%d log=%s" % (head, st, tp, fmt_log(vis)))
         except mhsm.HsmTopologyException:
